@@ -413,14 +413,14 @@ PLANS = {
                 FLOW_EMIT + ["dust_q", "period_q", "long_q"], W_Q, W_T, reach=["Received"], wide={"quick": [(30, 60, 0)], "thorough": [(300, 80, 0), (300, 80, 1)]}, scen=["CROWD"]),
     "C06": plan(["flow_q", "period_q", "downrate_q"], FLOW_MC + ["period_q", "downrate_q"], ["flow_q", "period_q", "downrate_q"], FLOW_EMIT + ["period_q", "downrate_q"], W_Q, W_T, reach=["Received"], wide={"quick": [(30, 60, 0)], "thorough": [(300, 80, 0), (300, 80, 1)]}),
     "C07": plan(["ibc_q", "ibc_force_q"], IBC_MC + ["ibc_deep_t", "ibc_force_q"], ["ibc_q", "ibc_force_q"], IBC_EMIT + ["ibc_q", "ibc_force_q"], W_Q, W_T, reach=["Refundable"], scen=["KF2", "REC12", "MIG"]),
-    "C08": plan(["gate_q", "own"], GATE_MC + ["own_t"], ["gate_q", "own"], GATE_EMIT + ["own_t"], W_Q, W_T, scen=["MIG"]),
-    "C09": plan(["gates_q"], GATE_MC, ["gates_q"], GATE_EMIT, W_Q, W_T, scen=["C09", "MIG"]),
+    "C08": plan(["gate_q", "own", "gateadmin_t"], GATE_MC + ["own_t"], ["gate_q", "own", "gateadmin_t"], GATE_EMIT + ["own_t"], W_Q, W_T, scen=["MIG"]),
+    "C09": plan(["gates_q", "gateadmin_t"], GATE_MC, ["gates_q", "gateadmin_t"], GATE_EMIT, W_Q, W_T, scen=["C09", "MIG"]),
     "C10": plan(["gate_q", "own"], GATE_MC + ["own_t"], ["gate_q", "own"], GATE_EMIT + ["own_t"], W_Q, W_T, scen=["MIG"]),
     "C11": plan(["flow_q", "flow_treasury_q", "fees_q", "fee150_q", "fee100_q", "zerolst_q"], ["flow_t", "flow_treasury_t", "flow_amounts_t", "fees_t", "fee150_q", "fee100_q", "zerolst_q"],
                 ["flow_treasury_q", "fees_q", "fee150_q", "fee100_q", "zerolst_q"], ["flow_t", "flow_treasury_t", "fees_t", "fee150_q", "fee100_q", "zerolst_q"], W_Q, W_T, scen=["MIG"], wide={"quick": [(30, 60, 0)], "thorough": [(300, 80, 0), (300, 80, 1)]}),
     "C12": plan(["own"], ["own_t"], ["own"], ["own_t"], [("admin", 10, 60)], [("admin", 150, 70)]),
     "C13": plan(["treasury_q", "flow_treasury_q"], ["treasury_t", "flow_treasury_q"], ["treasury_q", "flow_treasury_q"], ["treasury_t", "flow_treasury_q"], [], [], scen=["TINST"]),
-    "C14": plan(["gates_q"], ["gateadmin_t"], [], ["gateadmin_t"], [("admin", 8, 60)], [("admin", 100, 70)]),
+    "C14": plan(["gates_q", "gateadmin_t"], ["gateadmin_t"], ["gateadmin_t"], ["gateadmin_t"], [("admin", 8, 60)], [("admin", 100, 70)]),
     "C15": plan(["flow_q", "flow_treasury_q", "resume_q", "zerolst_q"], ["flow_t", "flow_treasury_t", "flow_amounts_t", "flow_resume_t", "zerolst_q"], ["flow_q", "flow_treasury_q", "resume_q", "zerolst_q"],
                 ["flow_t", "flow_treasury_t", "flow_extras_t", "zerolst_q", "resume_q"], W_Q, W_T, scen=["MIG"]),
     "C16": plan(["flow_q", "gates_q", "downrate_q"], FLOW_MC + IBC_MC + GATE_MC + ["downrate_q"], ["flow_treasury_q", "ibc_q", "gates_q", "own", "treasury_q", "downrate_q", "fee150_q"],
@@ -428,7 +428,7 @@ PLANS = {
                 wide={"quick": [(30, 60, 0), (30, 60, 1)], "thorough": [(400, 80, 0), (400, 80, 1)]}),
     "C17": plan(["flow_q", "dust_q"], ["flow_t", "dust_q"], ["flow_q", "dust_q"], ["flow_t", "dust_q"], [("chaos", 6, 60)], [("chaos", 60, 70)], scen=["CROWD"]),
     "C18": plan(["ibc_q"], IBC_MC, [], [], [], [], scen=["C18"]),
-    "C19": plan(["flow_q", "limits1_q", "downrate_q", "flow_treasury_q"], ["flow_t", "limits1_q", "downrate_q", "flow_treasury_q"], ["flow_q", "limits1_q", "downrate_q", "flow_treasury_q"],
+    "C19": plan(["flow_q", "limits1_q", "downrate_q", "flow_treasury_q", "sender_q"], ["flow_t", "limits1_q", "downrate_q", "flow_treasury_q", "sender_q"], ["flow_q", "limits1_q", "downrate_q", "flow_treasury_q", "sender_q"],
                 ["flow_t", "limits1_q", "limits_q", "downrate_q", "flow_resume_t", "flow_treasury_t"],
                 [("chaos", 8, 60)], [("chaos", 100, 70)], scen=["C19b", "CROWD"]),
 }
